@@ -74,7 +74,7 @@ func (g *genReq) wire() []byte {
 var pathSegs = []string{"a", "index.html", "%2F", "a%2Fb", "%20", "x%20y", "caf%C3%A9", "..", ".", "", "~user", "a+b", "q=1", "semi;colon", "at@sign", "colon:x", "(paren)", "star*", "%41", "%7e", "%E2%82%AC", "a,b", "$d", "!bang", "'q'", "UPPER", "%2e%2e", "%252F"}
 var queryParts = []string{"a=1", "b=%20x", "c=", "d", "e=%2F%2F", "f=a+b", "g=caf%C3%A9", "h=1&h=2", "i==", "j=%26amp", "k=~", "L=UP", "m=%3B", "n=/slash", "o=?q", "p=:colon@at"}
 var fieldNames = []string{"Idempotency-Key", "X-Idempotency-Key", "X-Forwarded-Host", "X-Custom", "x-lower", "X-UPPER-CASE", "X_Under_Score", "Accept", "Accept-Language", "Cookie", "Content-Type", "Range", "If-None-Match", "Authorization", "X-Forwarded-For", "X-Forwarded-Proto", "Cache-Control", "Origin", "Referer", "User-Agent", "Accept-Encoding", "X-1", "X.Dot", "X~Tilde", "Via", "Forwarded", "Pragma", "DNT"}
-var fieldValues = []string{"1", "", "text/html, application/xhtml+xml;q=0.9, */*;q=0.8", "a=b; c=d", "bytes=0-99", "W/\"etag-1\"", "Bearer abc.def.ghi", "value with  two spaces", "tab\tinside", "comma,separated,list", "\"quoted, string\"", "1.2.3.4", "https", "max-age=0", "Mozilla/5.0 (X11; Linux x86_64)", "gzip", "identity", "UPPER lower MiXeD", "semi;colon;x=1", "=?utf-8?q?x?=", "null", "0", "trailing.dot."}
+var fieldValues = []string{"1", "", "text/html, application/xhtml+xml;q=0.9, */*;q=0.8", "a=b; c=d", "bytes=0-99", "W/\"etag-1\"", "Bearer abc.def.ghi", "value with  two spaces", "tab\tinside", "comma,separated,list", "\"quoted, string\"", "1.2.3.4", "https", "max-age=0", "Mozilla/5.0 (X11; Linux x86_64)", "gzip", "identity", "gzip, deflate, br", "UPPER lower MiXeD", "semi;colon;x=1", "=?utf-8?q?x?=", "null", "0", "trailing.dot."}
 
 // singleton fields are defined to occur at most once with a non-empty value;
 // a request repeating them is not well-formed
@@ -240,7 +240,13 @@ func worldC02(w *World) {
 		w.Probe("backend_dial_refused_once")
 	}
 	startRawBackend(w, rb)
-	startAgent(w)
+	// the agent's optional response-side features must not touch what is forwarded
+	var agentArgs []string
+	if t.Rare(1, 3, "shimmounted") {
+		agentArgs = append(agentArgs, "-shim-websockets", "-shim-path=shim")
+		w.Probe("agent_with_shim_mounted")
+	}
+	startAgent(w, agentArgs...)
 	warm := make(chan struct{})
 	if bfault {
 		// a first request leaves an idle kept-alive connection to the backend behind
